@@ -341,7 +341,7 @@ def main(run, shard=(0, 1)) -> None:
     explored: Dict[str, int] = {}
     try:
         # ---- synthesised inputs
-        n_worlds = (14 if thorough else 3) * len(layouts)
+        n_worlds = (30 if thorough else 3) * len(layouts)
         for wi in range(n_worlds):
             layout = layouts[wi % len(layouts)]
             variant = wi // len(layouts)
